@@ -241,6 +241,17 @@ def run_shard(sh: Shard) -> None:
     ndocs = -(-TOTAL_DOCS[sh.tier] // sh.nshards)
     hist, feats = {}, {}
     done = 0
+    # directed corpus first: Directory outputs with same-basename files in different sub-directories
+    for i, case in enumerate(G.directed_cases_c34()):
+        if sh.mine(i):
+            case["c34"] = {"add_file": i % 2 == 0}
+            sh.count("directed_runs")
+            res = run_case(sh, case, hist)
+            if res is None:
+                res = run_case(sh, case, hist)  # timing dependent run / interrupted: repeated once
+            if res is not None:
+                for f in case["meta"]["features"]:
+                    feats[f] = feats.get(f, 0) + 1
     for i in range(ndocs * 3):
         # the soft budget stops a shard only after its first two cases (a busy machine must not starve the minimum)
         if done >= ndocs or (sh.out_of_budget() and done >= 2):
